@@ -1,0 +1,182 @@
+//go:build verif
+
+// Contracts for the fvc verification-condition generator in /verif (comment-only file).
+// C07: no request can crash, wedge or balloon the server; replies are well-formed.
+
+package fiber
+
+//@ props C07
+
+// A header value is one line: it contains neither CR nor LF.
+//@ fn noCRLF(s string) bool = forall(k, 0, len(s), s[k] != '\r' && s[k] != '\n')
+
+// ---------------------------------------------------------------------------------------------
+// Header well-formedness: no value a handler passes to a response helper adds a header line.
+// fasthttp's ResponseHeader.Set/Add replace CR and LF in the value; SetCanonical and SetContentType
+// put the bytes on the wire verbatim (contracts/deps/mw_C07.spec: `requires value-one-line`). A helper
+// has NO precondition on handler-supplied strings (redirect target, link, file name, callback, charset,
+// content type): whatever it is given, what reaches SetCanonical/SetContentType must be one line.
+// ---------------------------------------------------------------------------------------------
+
+// Every helper that bypasses Set() funnels through here: Location, Links, Attachment, Download, JSONP,
+// (*Redirect).To.
+//@ func (*DefaultCtx).setCanonical
+//@   pure
+
+//@ func (*DefaultCtx).Location
+//@   pure
+
+//@ func (*App).quoteString
+//@   ensures quoted-is-one-line: noCRLF(result)
+
+// Attachment/Download percent-encode the file name (quoteString), JSONP passes a constant: these callers
+// hand setCanonical a one-line value whatever the handler supplied.
+//@ func (*DefaultCtx).Attachment
+//@   atcall (*DefaultCtx).setCanonical: file-name-escaped: noCRLF(val)
+
+//@ func (*DefaultCtx).Download
+//@   atcall (*DefaultCtx).setCanonical: file-name-escaped: noCRLF(val)
+
+// Links and Location pass the handler's strings on unchanged (setCanonical has to cope).
+//@ func (*DefaultCtx).Links
+//@   loop 1
+//@     decreases len(link) - rangeindex
+
+// JSONP: the callback name only reaches the body, never a header.
+//@ func (*DefaultCtx).JSONP
+//@   atcall (*DefaultCtx).setCanonical: constant-header: key == "X-Content-Type-Options" && val == "nosniff"
+
+//@ func (*DefaultCtx).Type
+
+//@ func (*DefaultCtx).JSON
+
+//@ func (*DefaultCtx).CBOR
+
+//@ func (*DefaultCtx).XML
+
+// ---------------------------------------------------------------------------------------------
+// Hand-written parsers of helpers.go: total (no index/slice panic) for every input string.
+// ---------------------------------------------------------------------------------------------
+
+//@ func isNoCache
+//@   pure
+
+//@ func matchEtag
+//@   pure
+//@   ensures iff-equal-modulo-weak: result <==> (s == etag || s == "W/" + etag || "W/" + s == etag)
+
+//@ func (*App).isEtagStale
+//@   loop 1
+//@     invariant window-in-range: 0 <= start && start <= end && end <= rangeindex + 1 && rangeindex + 1 <= len(noneMatchBytes)
+//@     decreases len(noneMatchBytes) - rangeindex
+
+//@ func defaultString
+//@   pure
+//@   ensures value-or-default: result == ite(len(value) == 0 && len(defaultValue) > 0, defaultValue[0], value)
+
+// Method table. (*App).method indexes config.RequestMethods: its argument must be an index of that table.
+// A context whose request method is not one of the configured methods has methodInt == -1. Route handlers
+// never see such a context (the request handlers answer 501 first), but Method() is an accessor every handler
+// may call - also an ErrorHandler invoked from serverErrorHandler, and customRequestHandler itself calls
+// it before its own check - so Method() has NO precondition and must not hand -1 to the table lookup.
+//@ macro methodKnown(c) = 0 <= c.methodInt && c.methodInt < len(c.app.config.RequestMethods)
+
+//@ func (*App).method
+//@   pure
+//@   requires index-in-method-table: 0 <= methodInt && methodInt < len(app.config.RequestMethods)
+//@   ensures result == app.config.RequestMethods[methodInt]
+
+//@ func (*DefaultCtx).Method
+//@   modifies c.methodInt
+//@   ensures override-keeps-index-valid: old(methodKnown(c)) ==> methodKnown(c)
+
+// Content-Encoding list splitter: every slice expression stays inside the header value, the loop ends.
+// (frame: only elements of string slices are written - dst's array or a new one when it grows)
+//@ func getSplicedStrList
+//@   modifies heap(E_string)
+//@   loop 1
+//@     invariant segment-start-not-past-cursor: 0 <= segmentStart && segmentStart <= rangepos()
+//@     decreases len(headerValue) - rangepos()
+//@   ensures empty-header-no-list: headerValue == "" ==> result == nil
+//@   ensures some-part: headerValue != "" ==> len(result) >= 1
+
+// Decoding the request body in Content-Encoding order. Safety for every encoding list, termination, and
+// the only allocation fiber itself makes here is the copy of the body as received (proportional to the request).
+//@ func (*DefaultCtx).tryDecodeBodyInOrder
+//@   requires out-param: originalBody != nil
+//@   modifies heap(C_LJuint8), heap(E_uint8)
+//@   allocbound copy-of-received-body: reqBodyLen(c.fasthttp.Request, epoch)
+//@   loop 1
+//@     invariant index-in-range: rangeindex + 1 <= len(encodings)
+//@     decreases len(encodings) - rangeindex
+//@   ensures error-no-body: result2 != nil ==> result0 == nil
+
+// Range header parser. For every header value: no slice expression leaves its string, the loop ends
+// (each round consumes the list up to and including the next comma), and every range handed to the
+// handler lies inside the representation: 0 <= Start <= End <= size-1 (SendFile-style callers slice with them).
+//@ func (*DefaultCtx).Range
+//@   requires package-errors-initialised: ErrRangeMalformed != nil && ErrRangeUnsatisfiable != nil
+//@   loop 1
+//@     invariant ranges-inside-representation: forall(k, 0, len(rangeData.Ranges), 0 <= rangeData.Ranges[k].Start && rangeData.Ranges[k].Start <= rangeData.Ranges[k].End && rangeData.Ranges[k].End <= size - 1)
+//@     decreases len(moreRanges)
+//@   ensures ranges-inside-representation: forall(k, 0, len(result0.Ranges), 0 <= result0.Ranges[k].Start && result0.Ranges[k].Start <= result0.Ranges[k].End && result0.Ranges[k].End <= size - 1)
+//@   ensures ok-has-a-range: result1 == nil ==> len(result0.Ranges) >= 1
+
+// ---------------------------------------------------------------------------------------------
+// Remaining accessors / helpers of the sweep (safety obligations are generated for every function here).
+// ---------------------------------------------------------------------------------------------
+
+// Set goes through fasthttp's sanitising setter: any value is in its domain.
+//@ func (*DefaultCtx).Set
+//@   pure
+
+// Append/Vary: the joined value reaches the response only through Set.
+//@ func (*DefaultCtx).Append
+//@   loop 1
+//@     decreases len(values) - rangeindex
+
+//@ func (*DefaultCtx).Vary
+
+// Conditional-request evaluation: total for every If-None-Match / If-Modified-Since / Cache-Control value.
+//@ func (*DefaultCtx).Fresh
+//@   ensures unconditional-request-is-not-fresh: reqHeader(c, "If-Modified-Since", old(epoch)) == "" && reqHeader(c, "If-None-Match", old(epoch)) == "" ==> !result
+
+// ---------------------------------------------------------------------------------------------
+// Malformed requests (fasthttp could not parse/read the request): every error class is replaced by one
+// of the framework's 4xx/5xx error values before the application's error handler sees it - the handler
+// never gets the raw transport error, and never a nil error.
+//   *fasthttp.ErrSmallBuffer -> 431, *net.OpError timeout -> 408, other net.Error -> 502,
+//   ErrBodyTooLarge -> 413, ErrGetOnly -> 405, "timeout" in the text -> 408, anything else -> 400.
+// (ghosts ehCalls/ehRet/sentStatus: zz_contracts_c08_verif.go, fiber_ctx.spec)
+// ---------------------------------------------------------------------------------------------
+//@ func (*App).serverErrorHandler
+//@   props C07 C08
+//@   requires a-transport-error: err != nil
+//@   requires [C08] fresh-request: ehCalls == 0
+//@   atcall (*App).ErrorHandler: mapped-to-framework-status-error: typeis(err, *Error) && (unbox(err, *Error) == ErrRequestHeaderFieldsTooLarge || unbox(err, *Error) == ErrRequestTimeout ||
+//@ ..    unbox(err, *Error) == ErrBadGateway || unbox(err, *Error) == ErrRequestEntityTooLarge || unbox(err, *Error) == ErrMethodNotAllowed || unbox(err, *Error).Code == StatusBadRequest)
+//@   atcall (*App).ErrorHandler: [C08] delivered-once: ehCalls == 0
+//@   ensures [C08] exactly-once: ehCalls == old(ehCalls) + 1
+//@   ensures [C08] failing-handler-yields-500: ehRet != nil ==> sentStatus == StatusInternalServerError
+
+// ---------------------------------------------------------------------------------------------
+// The limits the application configured are the limits the server enforces: fasthttp bounds request size,
+// header size and read time only by what init() hands over (a dropped assignment silently means
+// "fasthttp default", e.g. 4 MB bodies instead of a small BodyLimit). init() runs under the application
+// mutex and must release it (a forgotten Unlock wedges every later registration/startup step).
+// ---------------------------------------------------------------------------------------------
+//@ func (*App).init
+//@   requires unlocked: !held(app.mutex)
+//@   ensures limits-reach-the-server: app.server != nil && app.server.MaxRequestBodySize == app.config.BodyLimit && app.server.ReadBufferSize == app.config.ReadBufferSize &&
+//@ ..    app.server.ReadTimeout == app.config.ReadTimeout && app.server.IdleTimeout == app.config.IdleTimeout && app.server.Concurrency == app.config.Concurrency &&
+//@ ..    app.server.StreamRequestBody == app.config.StreamRequestBody && app.server.GetOnly == app.config.GETOnly
+//@   ensures unlocked-again: !held(app.mutex)
+
+// Port(): remote port of a TCP connection (the documented listener networks are tcp/tcp4/tcp6). For any
+// other net.Addr the function panics by design: that explicit panic is excluded, nothing else is.
+//@ func (*DefaultCtx).Port panics
+
+//@ func (*DefaultCtx).Is
+//@   pure
+
+//@ func (*DefaultCtx).Stale
